@@ -32,6 +32,9 @@ type Fin struct {
 	// ExplicitTx: the program itself opens a transaction (Transaction / Begin),
 	// so BEGIN/COMMIT reach the driver in every mode by request.
 	ExplicitTx bool
+	// NoSchema: the statement has no model (Table("t") only; destination
+	// int64 / []string / map / rows)
+	NoSchema bool
 	// WriteStep ("INSERT" / "UPDATE"): for a Multi finisher whose returned
 	// handle exposes its main WRITE statement in DryRun (the lookup before it
 	// finds nothing): C19 compares that statement with the first statement of
@@ -107,6 +110,39 @@ func buildFins() []*Fin {
 			tx := db.Model(NewPtr(c.Model))
 			// Rows() works on its own instance; make the instance observable
 			tx = tx.Session(&gorm.Session{Initialized: true})
+			rows, err := tx.Rows()
+			closeRows(rows)
+			if tx.Error == nil {
+				tx.Error = err
+			}
+			return tx
+		}})
+
+	// ---- schema-less reads: Table(own) without Model
+	bNoSchema := set("WHERE", "SELECT", "HAVING", "JOIN", "ORDER", "LIMIT", "OFFSET", "GROUP")
+	add(&Fin{Label: `Table(own).Find(&[]map[string]interface{})`, Rep: true, Kind: "query", NoSchema: true, Builds: bNoSchema,
+		Run: func(db *gorm.DB, c *Ctx, v []Val) *gorm.DB {
+			var out []map[string]interface{}
+			return db.Table(TableOf[c.Model]).Find(&out)
+		}})
+	add(&Fin{Label: `Table(own).Count(&n)`, Kind: "query", NoSchema: true, Builds: set("WHERE", "HAVING", "JOIN", "LIMIT", "OFFSET", "GROUP"), May: set("ORDER"),
+		Run: func(db *gorm.DB, c *Ctx, v []Val) *gorm.DB {
+			var n int64
+			return db.Table(TableOf[c.Model]).Count(&n)
+		}})
+	add(&Fin{Label: `Table(own).Pluck("{0}", &[]string)`, Kind: "query", NoSchema: true, Builds: bNoSchema,
+		Run: func(db *gorm.DB, c *Ctx, v []Val) *gorm.DB {
+			var out []string
+			return db.Table(TableOf[c.Model]).Pluck(c.Col(0), &out)
+		}})
+	add(&Fin{Label: `Table(own).Take(&map[string]interface{})`, Kind: "query", NoSchema: true, Builds: set("WHERE", "SELECT", "HAVING", "JOIN", "ORDER", "OFFSET", "GROUP"),
+		Run: func(db *gorm.DB, c *Ctx, v []Val) *gorm.DB {
+			out := map[string]interface{}{}
+			return db.Table(TableOf[c.Model]).Take(&out)
+		}})
+	add(&Fin{Label: `Table(own).Rows()`, Kind: "query", NoSchema: true, Builds: bNoSchema, DryUnsupported: true,
+		Run: func(db *gorm.DB, c *Ctx, v []Val) *gorm.DB {
+			tx := db.Table(TableOf[c.Model]).Session(&gorm.Session{Initialized: true})
 			rows, err := tx.Rows()
 			closeRows(rows)
 			if tx.Error == nil {
